@@ -122,6 +122,11 @@ pub fn gen_scenario(rng: &mut Rng, prop: &str) -> Scenario {
         // header and question echo must also hold on the TSIG paths
         cfg.keys = gen_keys(rng, &names);
     }
+    if matches!(prop, "c03" | "c07" | "c08" | "c09") && rng.chance(1, 4) {
+        // rate limiting switched on with limits that are never reached: every response then also
+        // passes through the rate limiter's classification, and must come out unchanged
+        cfg.rrl = Some(RrlCfg { noerror: 1_000_000, nxdomain: 1_000_000, error: 1_000_000, window: 15, slip: 1, v4_prefix: 24, v6_prefix: 56, size: 64 });
+    }
     if prop == "c04" && rng.chance(1, 6) {
         // with rate limiting on, only the transport-level clauses are judged (see the driver)
         cfg.rrl = Some(RrlCfg { noerror: *rng.pick(&[1u32, 2]), nxdomain: 1, error: 1, window: *rng.pick(&[1u32, 2, 15]), slip: rng.range(1, 3), v4_prefix: 24, v6_prefix: 56, size: 1024 });
@@ -249,7 +254,16 @@ fn gen_request(rng: &mut Rng, sc: &Scenario, prop: &str) -> (Vec<u8>, &'static s
                 }
             }
         }
-        "c09" => shape_opts(rng, sc, &mut spec),
+        "c09" => {
+            shape_opts(rng, sc, &mut spec);
+            if rng.chance(1, 10) {
+                spec.questions.clear();
+            }
+            if rng.chance(1, 12) {
+                let opcode = rng.range(1, 15) as u16;
+                spec.flags = (spec.flags & !0x7800) | (opcode << 11);
+            }
+        }
         _ => {}
     }
     if rng.chance(1, 6) {
